@@ -256,3 +256,372 @@ func c04IdentityFromContent(c *core.Ctx) {
 }
 
 var _ = constant.MakeBool
+
+// c20NoDroppingSend: nothing is dropped between the socket and its handler: in package network every send on a channel that is a field of
+// one of the package's own types blocks (a plain send, or a select without default) — a `select { case ch <- m: default: }` turns
+// back-pressure into silent loss, and nothing re-requests a lost confirm or transaction batch.
+func c20NoDroppingSend(c *core.Ctx) {
+	nSend := 0
+	for _, fn := range c.SrcFuncs {
+		if core.RelPkg(fn) != "network" || isTestHelper(c, fn) {
+			continue
+		}
+		for _, b := range fn.Blocks {
+			for _, in := range b.Instrs {
+				switch x := in.(type) {
+				case *ssa.Send:
+					nSend++
+				case *ssa.Select:
+					for _, st := range x.States {
+						if st.Dir != types.SendOnly {
+							continue
+						}
+						nSend++
+						var fld *types.Var
+						for v := range core.SliceShallow(st.Chan) {
+							if f := core.FieldOf(v); f != nil && f.Pkg() != nil && f.Pkg().Path() == core.ModPath+"/network" {
+								fld = f
+							}
+						}
+						name := "local-channel"
+						if fld != nil {
+							name = fld.Name()
+						}
+						c.Check("send/"+name+"@"+shortFn(fn), "blocking-send", x.Blocking || fld == nil, x.Pos(), "a send on %s inside a select with a default case drops the message when the receiver is busy", name)
+					}
+				}
+			}
+		}
+	}
+	c.Floor("network/sends", nSend, 5)
+}
+
+// c16NoRawGasProduct: a gas price is never the wrapped product of two run-time quantities. In the functions that price execution (the gas
+// functions of the jump table, memoryGasCost, the RequiredGas of the native contracts) a uint64 `*` has a constant operand, or an operand
+// that was bounded by a dominating comparison (memoryGasCost's size test), or goes through math.SafeMul / big.Int.
+func c16NoRawGasProduct(c *core.Ctx) {
+	n, nMul := 0, 0
+	seq := map[string]int{}
+	var fns []*ssa.Function
+	for _, fn := range c.SrcFuncs {
+		if core.RelPkg(fn) != "chain/vm" || isTestHelper(c, fn) || fn.Parent() != nil {
+			continue
+		}
+		name := fn.Name()
+		if name == "RequiredGas" || name == "memoryGasCost" || name == "callGas" || (len(name) > 3 && name[:3] == "gas" && fn.Signature.Recv() == nil) {
+			fns = append(fns, fn)
+		}
+	}
+	for _, fn := range fns {
+		n++
+		for _, b := range fn.Blocks {
+			for _, in := range b.Instrs {
+				bo, ok := in.(*ssa.BinOp)
+				if !ok || bo.Op != token.MUL {
+					continue
+				}
+				bt, isB := bo.Type().Underlying().(*types.Basic)
+				if !isB || bt.Kind() != types.Uint64 {
+					continue
+				}
+				_, xc := bo.X.(*ssa.Const)
+				_, yc := bo.Y.(*ssa.Const)
+				nMul++
+				okm := xc || yc
+				if !okm {
+					// both operands tested against a bound before (a comparison with a constant that dominates the product)
+					bounded := func(v ssa.Value) bool {
+						for x := range core.SliceShallow(v) {
+							// a configured price (field of the gas table) or a length of something that exists in memory
+							if f := core.FieldOf(x); f != nil && f.Pkg() != nil && f.Pkg().Path() == core.ModPath+"/chain/params" {
+								return true
+							}
+							if call, isCall := x.(*ssa.Call); isCall {
+								if o := core.CalleeObj(call); o != nil && (o.Name() == "BitLen" || o.Name() == "Len") {
+									return true
+								}
+							}
+							for _, t := range fn.Blocks {
+								ifi := ifOf(t)
+								if ifi == nil || !t.Dominates(b) {
+									continue
+								}
+								cmp, isC := ifi.Cond.(*ssa.BinOp)
+								if !isC {
+									continue
+								}
+								switch cmp.Op {
+								case token.GTR, token.LSS, token.GEQ, token.LEQ:
+									_, kx := cmp.X.(*ssa.Const)
+									_, ky := cmp.Y.(*ssa.Const)
+									if (cmp.X == x && ky) || (cmp.Y == x && kx) {
+										return true
+									}
+								}
+							}
+						}
+						return false
+					}
+					okm = bounded(bo.X) && bounded(bo.Y)
+					if bo.X == bo.Y {
+						okm = bounded(bo.X)
+					}
+				}
+				seq[shortFn(fn)]++
+				c.Check("gas-product@"+shortFn(fn)+seqSuffix(seq[shortFn(fn)]), "overflow-checked", okm, bo.Pos(), "a uint64 product of two run-time values in a pricing function wraps silently: use math.SafeMul / big.Int or bound the operands first")
+			}
+		}
+	}
+	c.Floor("pricing-functions", n, 20)
+	_ = nMul
+}
+
+// c15LocksReleased: a mutex of the network layer that a function takes is given back before the function returns or comes round its loop
+// again (the server loop that leaves a select case with the peer table locked stops on its next event, for good). Per Lock/RLock call on a
+// mutex field: unless the function defers the matching unlock, no path from the call reaches a return, or the call's own block again,
+// without passing the matching Unlock/RUnlock on the same field.
+func c15LocksReleased(c *core.Ctx) {
+	mutexField := func(ci ssa.CallInstruction) (*types.Var, string) {
+		o := core.CalleeObj(ci)
+		if o == nil || o.Pkg() == nil || o.Pkg().Path() != "sync" {
+			return nil, ""
+		}
+		switch o.Name() {
+		case "Lock", "RLock", "Unlock", "RUnlock":
+		default:
+			return nil, ""
+		}
+		a := ci.Common().Args
+		if len(a) == 0 {
+			return nil, ""
+		}
+		// the mutex is the field whose address is taken last on the way to the receiver (x.mu, or the embedded x.T.RWMutex)
+		var f *types.Var
+		v := a[0]
+		for d := 0; d < 4 && f == nil; d++ {
+			switch x := v.(type) {
+			case *ssa.FieldAddr:
+				f = core.FieldOf(x)
+				if f != nil && f.Embedded() {
+					// an embedded sync type: name the lock by the field that holds the embedding struct as well
+					if outer, isFA := x.X.(*ssa.FieldAddr); isFA && core.FieldOf(outer) != nil {
+						f = core.FieldOf(outer)
+					}
+				}
+			case *ssa.UnOp:
+				v = x.X
+			case *ssa.ChangeType:
+				v = x.X
+			default:
+				d = 4
+			}
+		}
+		return f, o.Name()
+	}
+	release := map[string]string{"Lock": "Unlock", "RLock": "RUnlock"}
+	n := 0
+	for _, fn := range c.SrcFuncs {
+		rel := core.RelPkg(fn)
+		if (rel != "network" && rel != "network/p2p") || isTestHelper(c, fn) {
+			continue
+		}
+		seq := map[string]int{}
+		for _, b := range fn.Blocks {
+			for i, in := range b.Instrs {
+				ci, ok := in.(*ssa.Call)
+				if !ok {
+					continue
+				}
+				f, kind := mutexField(ci)
+				want, isAcq := release[kind]
+				if f == nil || !isAcq {
+					continue
+				}
+				n++
+				matches := func(x ssa.Instruction) bool {
+					xc, ok := x.(ssa.CallInstruction)
+					if !ok {
+						return false
+					}
+					if _, isGo := x.(*ssa.Go); isGo {
+						return false
+					}
+					xf, xk := mutexField(xc)
+					return xf == f && xk == want
+				}
+				deferred := false
+				for _, bb := range fn.Blocks {
+					for _, x := range bb.Instrs {
+						if d, isD := x.(*ssa.Defer); isD && matches(d) {
+							deferred = true
+						}
+					}
+				}
+				leak := ""
+				if !deferred {
+					releasedIn := func(instrs []ssa.Instruction) bool {
+						for _, x := range instrs {
+							if _, isD := x.(*ssa.Defer); !isD && matches(x) {
+								return true
+							}
+						}
+						return false
+					}
+					if !releasedIn(b.Instrs[i+1:]) {
+						seen := map[*ssa.BasicBlock]bool{}
+						var walk func(bb *ssa.BasicBlock)
+						walk = func(bb *ssa.BasicBlock) {
+							if leak != "" {
+								return
+							}
+							if bb == b {
+								leak = "the loop comes round to the Lock again"
+								return
+							}
+							if seen[bb] {
+								return
+							}
+							seen[bb] = true
+							if releasedIn(bb.Instrs) {
+								return
+							}
+							if len(bb.Instrs) > 0 {
+								if _, isRet := bb.Instrs[len(bb.Instrs)-1].(*ssa.Return); isRet {
+									leak = "a return is reached"
+									return
+								}
+							}
+							for _, s := range bb.Succs {
+								walk(s)
+							}
+						}
+						if len(b.Instrs) > 0 {
+							if _, isRet := b.Instrs[len(b.Instrs)-1].(*ssa.Return); isRet {
+								leak = "a return is reached"
+							}
+						}
+						for _, s := range b.Succs {
+							walk(s)
+						}
+					}
+				}
+				key := "lock-released/" + f.Name() + "@" + shortFn(fn)
+				seq[key]++
+				c.Check(key+seqSuffix(seq[key]), "acquire-release", leak == "", ci.Pos(), "%s on %s in %s is released on every way on: %s", kind, f.Name(), shortFn(fn), orOK(leak))
+			}
+		}
+	}
+	c.Floor("network/lock-sites", n, 20)
+}
+
+// c17MerkleNodesFresh: building the inner nodes does not write into the caller's leaf list: every value stored into MerkleTree.nodes is
+// made in place (make / a literal) or an append to nodes itself.
+func c17MerkleNodesFresh(c *core.Ctx) {
+	f := c.FieldVar("common/merkle.MerkleTree", "nodes")
+	n := 0
+	seq := map[string]int{}
+	for _, w := range fieldWritersAll(c, f) {
+		n++
+		ok := false
+		switch v := w.Store.Val.(type) {
+		case *ssa.MakeSlice:
+			ok = true
+		case *ssa.Slice:
+			if _, isAl := v.X.(*ssa.Alloc); isAl {
+				ok = true
+			}
+		case *ssa.Const:
+			ok = v.Value == nil
+		case *ssa.Call:
+			if core.BuiltinCallName(v) == "append" && len(v.Call.Args) > 0 {
+				for x := range core.SliceShallow(v.Call.Args[0]) {
+					if core.FieldOf(x) == f {
+						ok = true
+					}
+					if _, isMk := x.(*ssa.MakeSlice); isMk {
+						ok = true
+					}
+				}
+				for x := range core.SliceShallow(v.Call.Args[0]) {
+					if fv := core.FieldOf(x); fv != nil && fv != f {
+						ok = false
+					}
+				}
+			}
+		}
+		key := "MerkleTree.nodes←fresh-or-own@" + shortFn(w.Fn)
+		seq[key]++
+		c.Check(key+seqSuffix(seq[key]), "value-flow", ok, w.Store.Pos(), "the node list is a slice made here or an extension of itself (the leaf list belongs to the caller: appending to an alias of it rewrites the caller's following elements)")
+	}
+	c.Floor("MerkleTree.nodes/writers", n, 2)
+}
+
+// c17ProofWalkerPrefix: the proof walker matches a short node's key against the FRONT of the remaining search key: bytes.Equal(n.Key,
+// key[:len(n.Key)]) or bytes.HasPrefix(key, n.Key) — with the operands the other way round extension nodes never match and a present key
+// verifies as absent.
+func c17ProofWalkerPrefix(c *core.Ctx) {
+	fn := c.Fn("store/trie.get")
+	keyF := c.FieldVar("store/trie.shortNode", "Key")
+	hasKeyField := func(v ssa.Value) bool {
+		for x := range core.SliceShallow(v) {
+			if core.FieldOf(x) == keyF {
+				return true
+			}
+		}
+		return false
+	}
+	fromParam := func(v ssa.Value) bool {
+		for x := range core.Slice(v) {
+			if p, isP := x.(*ssa.Parameter); isP && p.Parent() == fn && len(fn.Params) > 1 && p == fn.Params[1] {
+				return true
+			}
+		}
+		return false
+	}
+	good, bad := 0, 0
+	var pos token.Pos = fn.Pos()
+	for _, ci := range core.AllCalls(fn) {
+		o := core.CalleeObj(ci)
+		if o == nil || o.Pkg() == nil || o.Pkg().Path() != "bytes" {
+			continue
+		}
+		a := ci.Common().Args
+		if len(a) != 2 || !(hasKeyField(a[0]) || hasKeyField(a[1])) {
+			continue
+		}
+		switch o.Name() {
+		case "HasPrefix":
+			if hasKeyField(a[1]) && fromParam(a[0]) {
+				if ld, isLd := a[1].(*ssa.UnOp); !isLd || core.FieldOf(ld.X) != keyF {
+					bad++
+					pos = ci.Pos()
+					continue
+				}
+				good++
+			} else {
+				bad++
+				pos = ci.Pos()
+			}
+		case "Equal":
+			// the other operand is a front slice of the search key as long as the node's key
+			other := a[0]
+			if hasKeyField(a[0]) {
+				other = a[1]
+			}
+			okFront := false
+			if sl, isSl := other.(*ssa.Slice); isSl && sl.Low == nil && sl.High != nil && hasKeyField(sl.High) && fromParam(sl.X) {
+				okFront = true
+			}
+			if okFront {
+				good++
+			} else {
+				bad++
+				pos = ci.Pos()
+			}
+		default:
+			bad++
+			pos = ci.Pos()
+		}
+	}
+	c.Check("proof.get:shortNode.Key-is-prefix-of-remaining-key", "comparison-shape", good >= 1 && bad == 0, pos, "the walker compares the node's key with the front of the remaining search key (%d such comparison(s), %d other)", good, bad)
+}
